@@ -131,6 +131,7 @@ type ContractSet struct {
 	// address-taken hints, small-type hints etc.
 	CounterFields map[string]bool
 	Monitors      map[string]*MonitorDecl
+	LeafLocks     map[string]string // "<pkgrel>.T.lockfield" -> reason
 }
 
 var clauseKeywords = map[string]bool{
@@ -140,7 +141,7 @@ var clauseKeywords = map[string]bool{
 	"nobalance": true, "trustcall": true, "trusted": true, "guards": true, "invariant": true, "trustframe": true,
 	"ensures_assumed": true,
 }
-var declKeywords = map[string]bool{"func": true, "stub": true, "pred": true, "ghost": true, "monitor": true}
+var declKeywords = map[string]bool{"func": true, "stub": true, "pred": true, "ghost": true, "monitor": true, "leaflock": true}
 
 // MonitorDecl: state guarded by one mutex field. When the lock of object x is
 // acquired, the guarded fields of x are havocked (other threads may have
@@ -305,6 +306,17 @@ func (cs *ContractSet) parseDecl(src contractSource, d *rawDecl) error {
 			return nil
 		}
 		return fmt.Errorf("%s: malformed ghost declaration: %s", d.head.Pos, rest)
+	case "leaflock":
+		// leaflock T.lockfield -- reason: innermost lock of the lock order
+		if src.Pkg == nil {
+			return fmt.Errorf("%s: leaflock outside a package", d.head.Pos)
+		}
+		name, reason := splitReason(rest)
+		if cs.LeafLocks == nil {
+			cs.LeafLocks = map[string]string{}
+		}
+		cs.LeafLocks[relPkg(src.Pkg.PkgPath)+"."+strings.TrimSpace(name)] = reason
+		return nil
 	case "monitor":
 		// monitor T.lockfield / props ... / guards f g / invariant expr (over `this`)
 		parts := strings.SplitN(strings.TrimSpace(rest), ".", 2)
